@@ -187,10 +187,42 @@ TimingCase(x) ==
       fin == Final(p, r0, "ramp", 256, 64)
   IN CaseRec("Timing", p, r0, "ramp", 256, fin, {}, {}, Tags(p, fin), [group |-> 0])
 
-Cases == CASE Family = "Shadow" -> ShadowCases [] Family = "RegDep" -> RegDepCases [] Family = "Tail" -> TailCases
+(* --------------------------------- Call (C03, C01) -------------------------- *)
+(* a leaf function called from several sites and returning through jalr: the same   *)
+(* indirect jump is executed with different targets; the instruction after it is    *)
+(* never on the executed path                                                       *)
+CallBodies == UpTo({Addi("t3", "t3", 5), Lw("t0", "a0", 0), Sw("t1", "a0", 8), I("mul", "t3", "t3", "t1", 0, 0)}, 2)
+CallShadows == {Li("t1", 99), Sw("t2", "a0", 16), Lw("t2", "a1", 4)}
+CallCases == { <<n, b, sh>> : n \in {2, 3}, b \in CallBodies, sh \in CallShadows }
+CallCase(x) ==
+  LET n == x[1] body == x[2]
+      f == 2 * n + 1                                  \* 0-based index of the function
+      calls == [k \in 1 .. (2 * n) |-> IF k % 2 = 1 THEN I("jal", "ra", "zero", "zero", 0, f)
+                                       ELSE Addi(IF k = 2 THEN "t1" ELSE "t2", IF k = 2 THEN "t1" ELSE "t2", k)]
+      endIdx == f + Len(body) + 2
+      p == calls \o <<I("j", "zero", "zero", "zero", 0, endIdx)>> \o body
+             \o <<I("jalr", "zero", "ra", "zero", 0, 0), x[3], Nop, Nop>>
+      r0 == Regs0(64, 128, 1, 7, 3, 2)
+      fin == Final(p, r0, "ramp", 256, 64)
+      sh == <<x[3]>>
+  IN CaseRec("Call", p, r0, "ramp", 256, fin, ShadowFocusRegs(sh), ShadowFocusAddrs(sh, 64, 128), Tags(p, fin), [taken |-> TRUE, calls |-> n])
+
+(* ------------------------------- LineFill (C05, C10) ------------------------ *)
+(* two loads of one cold line at different offsets (both may miss), then a store   *)
+(* that depends on the second load and changes the line                             *)
+LineFillCases == { <<o1, o2, o3, w>> : o1 \in {0, 4, 8, 60}, o2 \in {0, 4, 8, 60}, o3 \in {0, 12, 60}, w \in {1, 4} }
+LineFillCase(x) ==
+  LET st == IF x[4] = 1 THEN Sb("t2", "a1", x[3]) ELSE Sw("t2", "a1", x[3])
+      p == <<Lw("t1", "a0", x[1]), Lw("t0", "a0", x[2]), Addi("t2", "t0", 1), st, Nop, Nop, Lw("t3", "a0", x[3]), Nop>>
+      r0 == Regs0(64, 64, 0, 0, 0, 0)
+      fin == Final(p, r0, "ramp", 256, 64)
+  IN CaseRec("LineFill", p, r0, "ramp", 256, fin, {"t0", "t1", "t2", "t3"}, 64 .. 127, Tags(p, fin), [o1 |-> x[1], o2 |-> x[2]])
+
+Cases == CASE Family = "Shadow" -> ShadowCases [] Family = "Call" -> CallCases [] Family = "LineFill" -> LineFillCases
+           [] Family = "RegDep" -> RegDepCases [] Family = "Tail" -> TailCases
            [] Family = "MemDep" -> MemDepCases [] Family = "MemWalk" -> WalkCases [] Family = "Err" -> ErrCases
            [] Family = "Timing" -> TimingCases
-MkCase(x) == CASE Family = "Shadow" -> ShadowCase(x) [] Family = "RegDep" -> RegDepCase(x) [] Family = "Tail" -> TailCase(x)
+MkCase(x) == CASE Family = "Shadow" -> ShadowCase(x) [] Family = "Call" -> CallCase(x) [] Family = "LineFill" -> LineFillCase(x) [] Family = "RegDep" -> RegDepCase(x) [] Family = "Tail" -> TailCase(x)
                [] Family = "MemDep" -> MemDepCase(x) [] Family = "MemWalk" -> WalkCase(x) [] Family = "Err" -> ErrCase(x)
                [] Family = "Timing" -> TimingCase(x)
 
